@@ -165,6 +165,7 @@ BASIS = [
     ("T:180.25 /200.0", {"T": 180.25}),
     ("<Idle|MPos:5.000,6.000,-7.000|FS:500,8000|WCO:0.000,0.000,0.000>", {"X": 5.0, "Y": 6.0, "Z": -7.0, "F": 500.0, "S": 8000.0}),
     ("<Run|WPos:-1.500,0.000,12.250|Bf:15,128>", {"X": -1.5, "Y": 0.0, "Z": 12.25}),
+    ("<Run|MPos:4.000,5.000,6.000|WPos:14.000,15.000,16.000|FS:300,1000>", {"X": 4.0, "Y": 5.0, "Z": 6.0, "F": 300.0, "S": 1000.0}),
     ("<Jog|MPos:3.000,2.000,1.000|FS:120.5,9000.75>", {"X": 3.0, "Y": 2.0, "Z": 1.0, "F": 120.5, "S": 9000.75}),
     ("<Alarm|FS:0,0|MPos:0.000,0.000,0.000|Pn:X>", {"F": 0.0, "S": 0.0, "X": 0.0, "Y": 0.0, "Z": 0.0}),
     ("[PRB:1.000,2.000,-3.500:1]", {"X": 1.0, "Y": 2.0, "Z": -3.5}),
